@@ -356,7 +356,8 @@ class YPPrologCompiler:
             args = [ self.compile_expression(a) for a in expr.args ]
             return YPCodeCall('functor',[ YPCodeExpr(expr.name.value), YPCodeList(args) ])
         if isinstance(expr,NumeralTerm):
-            return YPCodeValue(expr.num)
+            # the value, not the spelling: '007' is not a Python literal
+            return YPCodeValue(str(int(expr.num)))
         if isinstance(expr,ListTerm):
             return self.compile_list(expr)
         if isinstance(expr,ListPairTerm):
